@@ -24,6 +24,8 @@ From RV Require Import Proofs.SrgbSpec.
 From RV Require Import Proofs.PixelArith.
 From RV Require Import Model.FilterWire.
 From RV Require Import Proofs.FilterWire.
+From RV Require Import Proofs.PixelConvolve.
+From RV Require Import Proofs.PixelChain.
 From Flocq Require Import Core BinarySingleNaN.
 Local Open Scope Z_scope.
 
@@ -68,6 +70,37 @@ Theorem C16_morphology_valid : forall op crx cry w h data, Forall valid_px data 
   Forall valid_px (morphology op crx cry w h data).
 Proof. exact morphology_valid. Qed.
 Print Assumptions C16_morphology_valid.
+
+(* feConvolveMatrix (extension round 4): ANY kernel, order, target, edge mode, divisor, bias (finite, infinite, NaN), both
+   preserveAlpha values, ANY image: the four window sums sr sg sb sa and the centre alpha are arbitrary binary32 / integer
+   values; over the source-derived closure `calc`, new_a, bounded_new_a and the two stores of convolve_matrix.rs *)
+Theorem C16_convolve_valid : forall preserve divisor bias sr sg sb sa in_a,
+  valid_px (cv_out preserve divisor bias sr sg sb sa in_a).
+Proof. exact convolve_out_valid. Qed.
+Print Assumptions C16_convolve_valid.
+
+(* the same for the sums the two loops accumulate over any visited (kernel value, pixel) list, and for the composition
+   apply_convolve_matrix performs (demultiply first under preserveAlpha, no multiply afterwards) *)
+Theorem C16_convolve_window_valid : forall preserve divisor bias win in_p,
+  valid_px (cv_pixel preserve divisor bias win in_p) /\ byte_px (cv_pixel preserve divisor bias win in_p).
+Proof. intros. split; [apply convolve_valid|apply cv_pixel_byte]. Qed.
+Print Assumptions C16_convolve_window_valid.
+
+Theorem C16_convolve_uniform_valid : forall preserve divisor bias ks p,
+  valid_px (px_convolve_uniform preserve divisor bias ks p) /\ byte_px (px_convolve_uniform preserve divisor bias ks p).
+Proof. exact convolve_uniform_valid. Qed.
+Print Assumptions C16_convolve_uniform_valid.
+
+(* WHOLE CHAINS (extension round 4): for every list of wired primitives (zero offset / blur, colour matrix, component
+   transfer, merge, arithmetic composite, over composite / normal blend, 1x1 convolve), every parameter, every wiring
+   (named, shadowed, unknown references, SourceAlpha) and every color-interpolation-filters assignment, every stored
+   result and the final sRGB result are valid premultiplied byte pixels, the on-demand into_srgb / into_linear_rgb
+   conversions between primitives included *)
+Theorem C16_chain_valid : forall ps src, byte_px src -> valid_px src ->
+  Forall (fun nv => byte_px (fst (snd nv)) /\ valid_px (fst (snd nv))) (run_prims src [] ps) /\
+  byte_px (run_filter ps src) /\ valid_px (run_filter ps src).
+Proof. exact chain_valid. Qed.
+Print Assumptions C16_chain_valid.
 
 (* ================================================================== lookup tables (as in the source now) *)
 (* every entry is the byte nearest to the sRGB transfer function (decided in exact rationals, Model/SrgbSpec.v) *)
@@ -217,6 +250,19 @@ Proof. vm_compute. discriminate. Qed.
 Example C16_ex_invalid_input_repaired :
   valid_pxb {| pr := 250; pg := 0; pb := 0; pa := 10 |} = false /\
   valid_pxb (px_into_linear {| pr := 250; pg := 0; pb := 0; pa := 10 |}) = true.
+Proof. vm_compute. split; reflexivity. Qed.
+(* a kernel of 2 over-brightens: alpha saturates, colours are clamped to it; the clamp is what keeps the pixel valid *)
+Example C16_ex_convolve :
+  let p := {| pr := 200; pg := 100; pb := 50; pa := 200 |} in
+  px_list (px_convolve_uniform false f1 fzero [flit 2 1] p) = [255; 200; 100; 255] /\
+  px_list (px_convolve_uniform true f1 (flit 1 2) [flit 2 1] p) = [200; 200; 179; 200].
+Proof. vm_compute. split; reflexivity. Qed.
+Example C16_ex_chain :
+  let src := {| pr := 200; pg := 100; pb := 50; pa := 200 |} in
+  let ps := [ {| w_kind := WArithmetic fzero (flit 2 1) fzero (flit 1 10) WSource WSource; w_cs := CsLinear; w_name := 1%N |};
+              {| w_kind := WConvolve1 false (flit 1 2) fzero f1 (WRef 1%N); w_cs := CsSRGB; w_name := 2%N |};
+              {| w_kind := WOver (WRef 1%N) (WRef 2%N); w_cs := CsLinear; w_name := 3%N |} ] in
+  valid_pxb (run_filter ps src) = true /\ px_eqb (run_filter ps src) src = false.
 Proof. vm_compute. split; reflexivity. Qed.
 Example C16_ex_erode : morph_pixel Erode 2 2 2 2 demo_img 1 1 = {| pr := 0; pg := 0; pb := 0; pa := 0 |}.
 Proof. vm_compute. reflexivity. Qed.
